@@ -545,6 +545,29 @@ fn gate_pool(n: &LedgerNode, tx: &Transaction) -> Verdict {
     }
 }
 
+/// Gate: the transaction comes back into the node's pool out of a refused block. A block that names
+/// the node itself as creator (signed by somebody else, so it is refused) has its transactions put
+/// back into the pool; what the pool takes that way is subject to the same rules as its front door.
+/// None when the block is not refused or cannot be built.
+fn gate_returned_to_pool(w: &World, p: &Position, tip: usize, c: &Candidate) -> Option<Verdict> {
+    let bytes = attacker_block(w, tip, c, false).ok()?;
+    let mut b = decode_block(&bytes);
+    let mut n = node_with_prelude(p, tip).ok()?;
+    b.creator = n.key.public;
+    let forged = crate::node::block_bytes(&b);
+    let before = n.tip();
+    match n.add_block_bytes(&forged) {
+        Outcome::Done(_) => {}
+        o => return Some(Verdict::Abort(o.label())),
+    }
+    if n.tip() != before {
+        return None;
+    }
+    let sig = c.tx.signature;
+    let pooled = n.mempool.try_read().map(|m| m.transactions.contains_key(&sig)).unwrap_or(false);
+    Some(if pooled { Verdict::Accepted } else { Verdict::Rejected })
+}
+
 fn gate_verify(n: &LedgerNode, tx: &Transaction) -> Verdict {
     let (mut v, mut r, _sr) = verifier(n);
     let t = tx.clone();
@@ -952,6 +975,12 @@ pub fn main(tier: Tier, _replay: Option<String>) -> i32 {
             let b = gate_pool(&n, c.tx2.as_ref().unwrap());
             let v = if a == Verdict::Accepted && b == Verdict::Accepted { Verdict::Accepted } else { Verdict::Rejected };
             verdicts.push(("pool".into(), v, String::new()));
+        }
+        if c.tx2.is_none() && !is_gt && !c.control {
+            match gate_returned_to_pool(w, p, tip, c) {
+                Some(v) => verdicts.push(("pool:returned-by-a-refused-block".into(), v, String::new())),
+                None => r.outcome("gate-not-applicable:returned-by-a-refused-block"),
+            }
         }
         let (v, d) = gate_block(w, p, tip, c, false, false);
         verdicts.push(("block:tip".into(), v, d));
